@@ -144,6 +144,9 @@ def _decorator_names(fn: ast.FunctionDef) -> List[str]:
     return out
 
 
+LAST_REPO = [None]
+
+
 class Repo:
     def __init__(self, root: str = "/repo", package: str = "cuqi"):
         self.root = Path(root)
@@ -152,6 +155,7 @@ class Repo:
         self.by_dotted: Dict[str, Module] = {}
         self.classes: List[ClassInfo] = []
         self.consulted: Dict[str, str] = {}
+        LAST_REPO[0] = self
         self._load()
         self._link()
 
